@@ -123,20 +123,173 @@ class AliTokenH(Harness):
         return dict(outputs=[], failures=[l for l, cnd in viol if truth(cnd)])
 
 
+def _lev(a, b):
+    """plain Levenshtein distance (unit costs) of two concrete lists"""
+    prev = list(range(len(b) + 1))
+    for i in range(1, len(a) + 1):
+        cur = [i] + [0] * len(b)
+        for j in range(1, len(b) + 1):
+            cur[j] = min(prev[j] + 1, cur[j - 1] + 1, prev[j - 1] + (a[i - 1] != b[j - 1]))
+        prev = cur
+    return prev[len(b)]
+
+
+class ErrorRateCmdH(Harness):
+    """compute-torch-token-data-dir-error-rates run in-process on a directory whose ref/ and hyp/ token tensors are symbolic (the command reads each
+    token with .item(), which forks through the solver, so every token assignment over the alphabet is explored).  Asserted: the printed figure equals
+    total Levenshtein edits (after --replace, then --ignore) / total filtered reference length (or per-utterance figures / mean distance), and is the
+    same for every --batch-size.  cfg: R, H (lengths per utterance), toks, batch_sizes, ignore, replace, per_utt, distances"""
+    functions = ["pydrobert.torch.command_line.compute_torch_token_data_dir_error_rates", "pydrobert.torch.command_line._load_transcripts_from_data_dir",
+                 "pydrobert.torch._parsing.token_to_transcript", "pydrobert.torch._string.error_rate"]
+
+    def _run(self, refs, hyps, bs):
+        import pydrobert.torch.command_line as CL
+        c = self.cfg
+        root = tempfile.mkdtemp(prefix="verif_c17_")
+        store = {}
+        try:
+            for sub, d in (("ref", refs), ("hyp", hyps)):
+                os.makedirs(os.path.join(root, sub))
+                for u, t in d.items():
+                    fn = os.path.join(root, sub, u + ".pt")
+                    open(fn, "w").close()
+                    store[fn] = t
+            flags = ["--batch-size", str(bs), "--quiet"]
+            if c.get("ignore"):
+                with open(os.path.join(root, "ignore.txt"), "w") as f:
+                    f.write(" ".join(str(x) for x in c["ignore"]) + "\n")
+                flags += ["--ignore", os.path.join(root, "ignore.txt")]
+            if c.get("replace"):
+                with open(os.path.join(root, "replace.txt"), "w") as f:
+                    for a, b in c["replace"]:
+                        f.write(f"{a} {b}\n")
+                flags += ["--replace", os.path.join(root, "replace.txt")]
+            if c.get("per_utt"):
+                flags.append("--per-utt")
+            if c.get("distances"):
+                flags.append("--distances")
+            out_path = os.path.join(root, "out.txt")
+
+            def load(path, *a, **k):
+                return store[path]
+
+            class SimpleDL:   # DataLoader(batch_size=1, num_workers=0): one item at a time through collate_fn; no base-seed draw
+                def __init__(self, ds, batch_size=1, num_workers=0, collate_fn=None, **kw):
+                    assert batch_size == 1 and num_workers == 0
+                    self.ds, self.collate_fn = ds, collate_fn
+
+                def __iter__(self):
+                    for i in range(len(self.ds)):
+                        yield self.collate_fn([self.ds[i]])
+
+            shim = Shim(torch, load=load, utils=Shim(torch.utils, data=Shim(torch.utils.data, DataLoader=SimpleDL)))
+            with patched(CL, torch=shim):
+                rc = CL.compute_torch_token_data_dir_error_rates([os.path.join(root, "ref"), os.path.join(root, "hyp"), out_path] + flags)
+            return rc, open(out_path).read()
+        finally:
+            shutil.rmtree(root, ignore_errors=True)
+
+    def _expected(self, refs, hyps):
+        """refs/hyps: utt -> concrete token list.  returns the text the documentation prescribes (as numbers)"""
+        c = self.cfg
+        rep = dict(c.get("replace") or [])
+        ign = set(c.get("ignore") or [])
+        filt = lambda seq: [rep.get(t, t) for t in seq if rep.get(t, t) not in ign]
+        per, tot_e, tot_r = [], 0, 0
+        for u in sorted(refs):
+            r, h = filt(refs[u]), filt(hyps[u])
+            d = _lev(r, h)
+            per.append((u, d, len(r)))
+            tot_e += d
+            tot_r += len(r)
+        return per, tot_e, tot_r
+
+    def _judge(self, refs, hyps, results):
+        c = self.cfg
+        per, tot_e, tot_r = self._expected(refs, hyps)
+        viol = []
+        for bs, (rc, text) in results.items():
+            viol.append((f"batch size {bs}: command returned {rc}", rc not in (0, None)))
+            if rc not in (0, None):
+                continue
+            lines = text.strip().split("\n")
+            try:
+                if c.get("per_utt"):
+                    got = {l.split()[0]: float(l.split()[1]) for l in lines}
+                    for u, d, n in per:
+                        want = float(d) if c.get("distances") else (d / n if n else float(d > 0))
+                        viol.append((f"batch size {bs}: utterance {u}: printed {got.get(u)} but {d} edits over {n} reference tokens", u not in got or abs(got[u] - want) > 1e-9))
+                else:
+                    want = tot_e / len(per) if c.get("distances") else tot_e / tot_r
+                    viol.append((f"batch size {bs}: printed {lines[0]} but {tot_e} total edits over {tot_r} reference tokens ({len(per)} utterances)", abs(float(lines[0]) - want) > 1e-9))
+            except (ValueError, IndexError, ZeroDivisionError) as e:
+                viol.append((f"batch size {bs}: unparsable output {text!r} ({type(e).__name__})", True))
+        return viol
+
+    def _lists(self, get):
+        c = self.cfg
+        refs = {f"u{n}": [get(f"r{n}_{j}") for j in range(R)] for n, R in enumerate(c["R"])}
+        hyps = {f"u{n}": [get(f"h{n}_{j}") for j in range(H)] for n, H in enumerate(c["H"])}
+        return refs, hyps
+
+    def _defined(self, refs):
+        """the total figure is 0/0 when every filtered reference is empty: outside the claim.  A single empty reference is inside: the total is defined and
+        the per-utterance figure follows C02's convention (0 if the hypothesis is empty too, else 1)"""
+        c = self.cfg
+        rep = dict(c.get("replace") or [])
+        ign = set(c.get("ignore") or [])
+        lens = [len([t for t in seq if rep.get(t, t) not in ign]) for seq in refs.values()]
+        return bool(c.get("distances")) or bool(c.get("per_utt")) or sum(lens) > 0
+
+    def symbolic(self, eng):
+        c = self.cfg
+
+        def get(nm):
+            v = eng.int(nm, min(c["toks"]), max(c["toks"]))
+            eng.assume(s_any(s_cmp("eq", v, t) for t in c["toks"]))
+            return v
+
+        refs, hyps = self._lists(get)
+        # the command reads every token with .item(); fork on them up front so that undefined figures (0/0) can be excluded before the run
+        crefs = {u: [eng.decide_int(x) for x in seq] for u, seq in refs.items()}
+        chyps = {u: [eng.decide_int(x) for x in seq] for u, seq in hyps.items()}
+        if not self._defined(crefs):
+            from symtorch.engine import PathAbort
+            raise PathAbort()
+        mk = lambda seq: eng.tensor(list(seq), (len(seq),), torch.int64)
+        results = {bs: self._run({u: mk(x) for u, x in refs.items()}, {u: mk(x) for u, x in hyps.items()}, bs) for bs in c["batch_sizes"]}
+        return dict(outputs=[], viol=self._judge(crefs, chyps, results))
+
+    def concrete(self, vals):
+        c = self.cfg
+        refs, hyps = self._lists(lambda nm: vals[nm])
+        mk = lambda seq: torch.tensor(list(seq), dtype=torch.long).reshape(len(seq))
+        results = {bs: self._run({u: mk(x) for u, x in refs.items()}, {u: mk(x) for u, x in hyps.items()}, bs) for bs in c["batch_sizes"]}
+        viol = self._judge(refs, hyps, results)
+        return dict(outputs=[], failures=[l for l, cnd in viol if truth(cnd)])
+
+
 META = dict(
-    functions=AliTokenH.functions,
+    functions=AliTokenH.functions + ErrorRateCmdH.functions,
     files=["src/pydrobert/torch/command_line.py"],
     explanation=(
         "The two real entry points torch-ali-data-dir-to-torch-token-data-dir and torch-token-data-dir-to-torch-ali-data-dir are run in-process "
         "(--num-workers 0, argparse included) on a temporary directory of placeholder files; torch.load/torch.save in the command module are redirected to "
         "an in-memory store that holds symbolic alignment tensors (every label a solver variable, so every run structure is covered).  Asserted: both "
         "commands succeed, exactly the utterances selected by the file prefix/suffix are converted (unrelated files ignored), the round trip is the identity "
-        "on every alignment, and the intermediate references are maximal contiguous segments from frame 0 to T carrying the frames' label."),
-    bounds=dict(quick="2 utterances of <= 4 frames over 3 labels; file prefix/suffix in {default, 'p_'/'.pt', ''/''}; an unrelated file present",
+        "on every alignment, and the intermediate references are maximal contiguous segments from frame 0 to T carrying the frames' label.  "
+        "compute-torch-token-data-dir-error-rates runs in-process on symbolic ref/ and hyp/ token tensors (the command reads tokens with .item(), each read forks "
+        "through the solver over the alphabet, so every token assignment within the bound is a path); asserted per path: the printed total equals the Levenshtein "
+        "edits after --replace-then---ignore filtering divided by the filtered reference length (per-utterance figures with --per-utt, C02's 0/1 convention for an "
+        "empty reference, mean distance with --distances), identically for every --batch-size."),
+    bounds=dict(error_rates="quick: 2 utterances, refs/hyps <= 2 tokens over <= 3 ids, batch sizes {1,2,100}, one ignore / one replace list; thorough: 3 utterances, <= 3 tokens",
+                quick="2 utterances of <= 4 frames over 3 labels; file prefix/suffix in {default, 'p_'/'.pt', ''/''}; an unrelated file present",
                 thorough="3 utterances of <= 5 frames over 3 labels; same prefix/suffix grid"),
-    assumptions=["files on disk are placeholders; tensor content lives in an in-memory store behind torch.load/torch.save", "single-process mode only"],
+    assumptions=["files on disk are placeholders; tensor content lives in an in-memory store behind torch.load/torch.save", "single-process mode only",
+                 "error-rate command: DataLoader(batch_size=1, num_workers=0) replaced by a plain loop over the data set (its base-seed draw is irrelevant here); "
+                 "all-references-empty corpora (0/0) excluded"],
     outside=["worker pools (imap_unordered, spawn): completion orders are not explored", "trn/ctm/TextGrid command plumbing (library level partly in C11)",
-             "compute-torch-token-data-dir-error-rates, subset and statistics commands (not built in this version)"],
+             "error-rate command with --id2token text plumbing and unequal costs (C02 covers the kernel)", "subset and statistics commands (file copying / shapes only)"],
 )
 
 M_ = "checks.c17"
@@ -149,4 +302,11 @@ def tasks(tier):
     for Ts in Ts_list:
         for prefix, suffix, extra in (("", ".pt", ["notes.txt"]), ("p_", ".pt", ["q_x.pt", "notes.txt"]), ("", "", [])):
             ts.append(task(PROP, M_, "AliTokenH", Ts=Ts, labels=3, prefix=prefix, suffix=suffix, extra=extra, nvalidate=1))
+    ts.append(task(PROP, M_, "ErrorRateCmdH", R=[2, 1], H=[1, 2], toks=[0, 1], batch_sizes=[1, 2], nvalidate=1))
+    ts.append(task(PROP, M_, "ErrorRateCmdH", R=[2, 1], H=[2, 1], toks=[0, 1, 2], batch_sizes=[1, 100], ignore=[2], per_utt=True, nvalidate=1))
+    ts.append(task(PROP, M_, "ErrorRateCmdH", R=[2, 2], H=[1, 1], toks=[0, 1, 2], batch_sizes=[2, 1], replace=[(2, 1)], distances=True, nvalidate=1))
+    if not q:
+        ts.append(task(PROP, M_, "ErrorRateCmdH", R=[2, 1, 1], H=[1, 2, 1], toks=[0, 1], batch_sizes=[1, 2, 3], nvalidate=1))
+        ts.append(task(PROP, M_, "ErrorRateCmdH", R=[3, 1], H=[2, 2], toks=[0, 1, 2], batch_sizes=[1, 2], ignore=[0], replace=[(2, 0)], nvalidate=1))
+        ts.append(task(PROP, M_, "ErrorRateCmdH", R=[2, 2], H=[3, 0], toks=[0, 1], batch_sizes=[1, 2], per_utt=True, distances=True, nvalidate=1))
     return ts
